@@ -406,3 +406,89 @@ def owners(repo: Repo, fi: FunctionInfo, depth: int = 0) -> set[str]:
             gr = gr.parent
         out |= owners(repo, gr, depth + 1) if gr.qualname not in base else {g.qualname}
     return out or {fi.qualname}
+
+
+# --------------------------------------------------------------------------------------
+# joins compared as decision functions
+# --------------------------------------------------------------------------------------
+def _cond_atoms(cnd: Term, out: list) -> None:
+    if cnd[0] == "u" and cnd[1] == "not":
+        _cond_atoms(cnd[2], out)
+    elif cnd[0] == "bool":
+        for x in cnd[2]:
+            _cond_atoms(x, out)
+    elif cnd[0] == "path":
+        for a, _ in cnd[1]:
+            _cond_atoms(a, out)
+    elif cnd not in out:
+        out.append(cnd)
+
+
+def _cond_value(cnd: Term, asg: dict) -> bool:
+    if cnd[0] == "u" and cnd[1] == "not":
+        return not _cond_value(cnd[2], asg)
+    if cnd[0] == "bool":
+        vals = [_cond_value(x, asg) for x in cnd[2]]
+        return all(vals) if cnd[1] == "and" else any(vals)
+    if cnd[0] == "path":
+        return all(_cond_value(a, asg) == bool(p) for a, p in cnd[1])
+    return asg[cnd]
+
+
+def decision_table(t: Term, limit: int = 8):
+    """A term built from joins (phi / conditional expressions), read as a FUNCTION from the
+    truth values of its condition atoms to the value it yields: {assignment: leaf}.  Two
+    terms with the same table compute the same thing, however their branches are nested,
+    ordered, negated or merged.  None when there are too many atoms."""
+    atoms: list = []
+
+    def collect(x):
+        if isinstance(x, tuple) and x and x[0] in ("phi", "ifexp") and len(x) == 4:
+            _cond_atoms(x[1], atoms)
+            collect(x[2])
+            collect(x[3])
+    collect(t)
+    if len(atoms) > limit:
+        return None
+    atoms.sort(key=repr)
+
+    def leaf(x, asg):
+        while isinstance(x, tuple) and x and x[0] in ("phi", "ifexp") and len(x) == 4:
+            x = x[2] if _cond_value(x[1], asg) else x[3]
+        return x
+    import itertools
+    table = {}
+    for bits in itertools.product((False, True), repeat=len(atoms)):
+        asg = dict(zip(atoms, bits))
+        table[tuple(sorted(((repr(a), v) for a, v in asg.items())))] = leaf(t, asg)
+    return atoms, table
+
+
+def same_decision(t1: Term, t2: Term) -> bool:
+    """Both terms yield the same value under every truth assignment of their condition
+    atoms (atoms of either term; an atom one of them does not test simply does not matter
+    to it)."""
+    if t1 == t2:
+        return True
+    if t1 is None or t2 is None:
+        return False
+    a1, a2 = [], []
+    for t, acc in ((t1, a1), (t2, a2)):
+        d = decision_table(t)
+        if d is None:
+            return False
+        acc.extend(d[0])
+    atoms = sorted({*a1, *a2}, key=repr)
+    if len(atoms) > 10:
+        return False
+    import itertools
+
+    def leaf(x, asg):
+        while isinstance(x, tuple) and x and x[0] in ("phi", "ifexp") and len(x) == 4:
+            x = x[2] if _cond_value(x[1], asg) else x[3]
+        return x
+    for bits in itertools.product((False, True), repeat=len(atoms)):
+        asg = dict(zip(atoms, bits))
+        if leaf(t1, asg) != leaf(t2, asg):
+            return False
+    return True
